@@ -332,45 +332,9 @@ def _observer_chain_rules(ctx, rule_drop, rule_keep):
                          p.find_class("Instruction"))
     mode_cls = p.find_class("MatchingSearchMode")
     T = lambda t: Str((Hole(t, "f", True),))
-    for label, mnemonic, expect_records in (("byte-continuation pseudo instruction", Str.lit("empty"), 0),
-                                            ("ordinary instruction", Str((Hole("MN", "f", True, lambda op, a: False if (op == "eq" and a == "empty") else None),)), 1),
-                                            ("direct call outside the range", Str.lit("call"), 1)):
-        for with_range in (False, True):
-            def thunk(I, mnemonic=mnemonic, with_range=with_range):
-                obs = I.construct(mo, [], {}, None, None)
-                cons = I.construct(cc, [], {"regex_rule": T("REGEX"), "matched_observer": obs, "matching_mode": EnumV(mode_cls, "first_find"),
-                                            "return_only_address": FALSE}, None, None)
-                add = cc.find_method("add_observer")
-                I.call_func(add, [I.construct(rem, [], {}, None, None)], {}, cons, None, None)
-                if with_range:
-                    rng = I.construct(vr, [], {"min_addr": T("MIN"), "max_addr": T("MAX")}, None, None)
-                    I.call_func(add, [I.construct(vao, [rng], {}, None, None)], {}, cons, None, None)
-                inst = I.construct(ins, [], {"addr": T("ADDR"), "mnemonic": mnemonic, "operands": ListV([T("TGT")])}, None, None)
-                I.call_func(cc.find_method("consume_instruction"), [inst], {}, cons, None, None)
-                I.call_func(cc.find_method("finalize"), [], {}, cons, None, None)
-                return cons
-            construct = f"CompleteConsumer.consume_instruction[{label}; observers: RemoveEmptyInstructions{' + ValidAddrObserver' if with_range else ''}]"
-            from ..facts import AnalysisError as _AE
-            try:
-                paths_ = I.explore(thunk)
-            except _AE as exc:
-                # hooks that are not objects with observe_instruction cannot be installed by this harness: the obligations are
-                # decided by wired_chain_rules on the program's own wiring
-                ctx.notes.append(f"observer chain (harness wiring) not applicable: {exc}"[:200])
-                continue
-            for path in paths_:
-                if path.kind != "return":
-                    if mnemonic.is_concrete() and mnemonic.text() == "call":
-                        continue        # int() of an opaque target may raise: outside this rule
-                    if any(isinstance(k, tuple) and k[0] == "noraise" and v is False for k, v, _ in path.conds):
-                        continue        # the modelled regex timeout: outside this rule
-                    ctx.fail(rule_keep, construct, f"raises {path.exc.type_name}", "consuming an instruction raises")
-                    continue
-                # what finalize() searches is the stream: count the records in it (no reliance on private field names)
-                streams = [I.expr_of(e.kwargs.get("string")) for e in path.events if e.kind == "extern_call" and e.name.startswith("regex.")]
-                n = -1 if len(streams) != 1 else streams[0].count("|")
-                ctx.check(n == expect_records, rule_drop if expect_records == 0 else rule_keep, construct,
-                          f"{n} record(s) appended", f"exactly {expect_records} record(s) reach the stream")
+    # (the chain itself - what reaches the stream with one and with two observers installed - is decided through the program's
+    # own wiring by wired_chain_rules; an earlier version of this rule installed the observers itself and misrepresented
+    # programs that hand the consumer a compiled pattern or callables)
     # no observer removes an instruction
     for c in [c for m in p.modules.values() for c in m.classes.values()]:
         meth = c.methods.get("observe_instruction") if hasattr(c, "methods") else None
